@@ -320,6 +320,14 @@ def build_catalogue():
                                       l=A([2.0, -1.0, 0.5], f)),
                        lambda a, em=em: (em().position_error_jacobian(a['p'], a['l']), em().ned_velocity_error_jacobian(a['p'], a['l']),
                                          em().body_velocity_error_jacobian(a['p'])), AF))
+        # ONE model instance serving several calls (the same-object steps then reuse it with changed contents: an
+        # instance-level memo with a wrong invalidation test shows here, not with an instance per call)
+        C.append(Entry('InsErrorModel[one instance, %s]' % tag,
+                       lambda f, wa=wa: dict(em=error_model.InsErrorModel(wa), p=pva(),
+                                             x=np.array([1.0, -2, 3, 0.1, -0.2, 0.3, 1e-3, -2e-3, 3e-3])[:9 if wa else 7]),
+                       lambda a: (a['em'].transform_to_output(a['p']), a['em'].transform_to_internal(a['p']),
+                                  a['em'].correct_pva(a['p'], a['x']), a['em'].system_matrices(a['p']),
+                                  a['em'].transform_to_output(a['p'])), skip=('em',)))
         C.append(Entry('error_model.propagate_errors[%s]' % tag,
                        lambda f: dict(t=traj_table(), e=pd.Series([5.0, -3, 0, 0.2, -0.1, 0, 0.1, -0.2, 0.5], index=TERR),
                                       g=A([1e-5, -2e-5, 3e-5], f), a=A([1e-3, 2e-3, -1e-3], f)),
@@ -619,33 +627,48 @@ def run_case(case):
     # 2b. the SAME argument objects again after their contents changed in place: the result must follow the contents
     # (a memo keyed by, or aliasing, the caller's array would return the stale result)
     import copy
-    def perturb(args):
+    def perturb(args, mode='all'):
+        """mode 'all': every non-zero element changes; 'one': a single element per array changes (a memo whose
+        invalidation test asks whether EVERYTHING changed, or looks at the first elements only, survives 'all')."""
         changed = False
+
+        def mask(a):
+            nz = (a != 0)
+            if mode == 'all' or not nz.any():
+                return nz
+            m_ = np.zeros(a.shape, dtype=bool)
+            flat = np.flatnonzero(nz.ravel())
+            # small arrays: the k-th non-zero element; large ones: one of three spread positions
+            pos = int(mode[4:])
+            k_ = pos % len(flat) if len(flat) <= 12 else ((1 + 2 * (pos % 3)) * len(flat)) // 6
+            m_.ravel()[flat[k_]] = True
+            return m_
         for k_, val in args.items():
             if isinstance(val, np.ndarray) and val.dtype.kind == 'f' and val.flags.writeable and k_ not in g.skip:
-                val += 1e-3 * (1.0 + np.abs(val)) * (val != 0)
+                val += 1e-3 * (1.0 + np.abs(val)) * mask(val)
                 changed = True
             elif isinstance(val, pd.Series) and val.dtype.kind == 'f' and k_ not in g.skip:
-                val.iloc[:] = val.values + 1e-3 * (1.0 + np.abs(val.values)) * (val.values != 0)
+                val.iloc[:] = val.values + 1e-3 * (1.0 + np.abs(val.values)) * mask(val.values)
                 changed = True
             elif isinstance(val, pd.DataFrame) and all(d_.kind == 'f' for d_ in val.dtypes) and k_ not in g.skip:
-                val.iloc[:, :] = val.values + 1e-3 * (1.0 + np.abs(val.values)) * (val.values != 0)
+                val.iloc[:, :] = val.values + 1e-3 * (1.0 + np.abs(val.values)) * mask(val.values)
                 changed = True
         return changed
 
-    for form in g.forms:
+    # 'one:k': small arguments get every element changed alone in turn (a result need not depend on every element)
+    for form, pmode in [(f_, m_) for f_ in g.forms for m_ in ['all'] + ['one:%d' % k_ for k_ in range(9)]]:
         try:
             a_ref = g.make(form)
             if any(isinstance(x_, np.random.RandomState) or isinstance(getattr(x_, 'rng', None), np.random.RandomState)
                    for x_ in a_ref.values()):
                 continue                               # a consumed random stream is documented state
-            if not perturb(a_ref):
+            if not perturb(a_ref, pmode):
                 continue
             r_ref = g.call(copy.deepcopy(a_ref))       # reference for the changed contents, computed first
             a1 = g.make(form)
             r_first = g.call(a1)                       # call with the original contents ...
             d_first = digest(r_first)
-            perturb(a1)                                # ... change the caller's arrays in place ...
+            perturb(a1, pmode)                         # ... change the caller's arrays in place ...
             r_same = g.call(a1)                        # ... and call again with the very same objects
             calls += 3
             if digest(r_first) != d_first:
